@@ -91,7 +91,7 @@ def run(ctx):
     ctx.cov["rule"] = ("cases = requests (listing, lookups by name/type, New(names), New1..9, FMap1..9, compiler offsets) on generated struct shapes; "
                        "non-trivial = the request line on a shape with >= 2 listed fields; distinct by (shape s-expression, request)")
     ctx.assumptions += ["gc/amd64 struct layout and reflect's field description are modelled (Model/Layout), validated against unsafe.Sizeof/Alignof/Offsetof on every generated shape",
-                        "type identity (String()== && AssignableTo) is equality of canonical GoType descriptions; the generator never prints two distinct types identically"]
+                        "type identity (String()== && AssignableTo) is equality of GoType descriptions whose defined types carry import path + name; a fraction of the shapes lists distinct types that reflect prints identically (same-named types of harness/pa/v1, pb/v1, pc/v1 and composites of them; no interface/channel kinds, where AssignableTo is wider than identity) - see distribution.colliding_types"]
     S.apply_replay(ctx)
     S.regenerate(ctx)
     ctx.prove()
